@@ -10,23 +10,28 @@ open AQ AQ.Stream AQ.RangeSet
 
 theorem getOrCreateStreamForSend_lmd {c c' : Conn} {sid : Nat} {st : Strm}
     (hg : getOrCreateStreamForSend c sid = .ok (c', st)) :
-    c'.localMaxData = c.localMaxData ∧ c'.quirks = c.quirks := by
+    c'.localMaxData = c.localMaxData ∧ c'.quirks = c.quirks ∧
+    c'.localMaxStreamsBidi.value = c.localMaxStreamsBidi.value ∧
+    c'.localMaxStreamsUni.value = c.localMaxStreamsUni.value := by
   unfold getOrCreateStreamForSend at hg
   repeat' split at hg
   all_goals (simp at hg)
-  all_goals (obtain ⟨rfl, _⟩ := hg; exact ⟨rfl, rfl⟩)
+  all_goals (obtain ⟨rfl, _⟩ := hg; exact ⟨rfl, rfl, rfl, rfl⟩)
 
 theorem getOrCreateStream_lmd {c c' : Conn} {sid : Nat} {st : Strm}
     (hg : getOrCreateStream c sid = .ok (c', st)) :
-    c'.localMaxData = c.localMaxData ∧ c'.quirks = c.quirks := by
+    c'.localMaxData = c.localMaxData ∧ c'.quirks = c.quirks ∧
+    c'.localMaxStreamsBidi.value = c.localMaxStreamsBidi.value ∧
+    c'.localMaxStreamsUni.value = c.localMaxStreamsUni.value := by
   unfold getOrCreateStream at hg
   simp only [] at hg
   repeat' split at hg
   all_goals (simp at hg)
-  all_goals (obtain ⟨rfl, _⟩ := hg; exact ⟨rfl, rfl⟩)
+  all_goals (obtain ⟨rfl, _⟩ := hg; refine ⟨rfl, rfl, ?_, ?_⟩ <;> (first | rfl | (simp only []; split <;> rfl)))
 
 /-- the part of the state the advertisement theorem talks about -/
-def lmdq (c : Conn) : Nat × Quirks := (c.localMaxData.value, c.quirks)
+def lmdq (c : Conn) : Nat × Nat × Nat × Quirks :=
+  (c.localMaxData.value, c.localMaxStreamsBidi.value, c.localMaxStreamsUni.value, c.quirks)
 
 theorem sendStreamData_lmdq (c : Conn) (sid : Nat) (d : Bytes) (fin : Bool) :
     lmdq (sendStreamData c sid d fin).1 = lmdq c := by
@@ -166,49 +171,108 @@ theorem maxStreamDataDelivery_lmdq (c : Conn) (sid : Nat) (d : Delivery) :
   repeat' split
   all_goals rfl
 
-/-- `_write_connection_limits`, fixed code: MAX_DATA frames and the enforced
-    value go together -/
-theorem writeConnLimits_maxData (c : Conn) (hq : c.quirks.raiseBeforeWrite = false) (r1 r2 r3 : Bool) :
-    (writeConnLimits c r1 r2 r3).1.quirks = c.quirks ∧
-    (((∀ v, WFrame.maxData v ∉ (writeConnLimits c r1 r2 r3).2.frames) ∧
-        (writeConnLimits c r1 r2 r3).1.localMaxData.value = c.localMaxData.value) ∨
-     (∃ v, (∀ w, WFrame.maxData w ∈ (writeConnLimits c r1 r2 r3).2.frames ↔ w = v) ∧
-        (writeConnLimits c r1 r2 r3).1.localMaxData.value = v ∧ c.localMaxData.value ≤ v)) := by
-  have hspec := writeLimit_spec c.quirks hq c.localMaxData r1
-  unfold writeConnLimits
-  simp only []
-  generalize writeLimit c.quirks c.localMaxData r1 = p1 at hspec ⊢
-  obtain ⟨l1, w1, s1⟩ := p1
-  generalize writeLimit c.quirks c.localMaxStreamsBidi r2 = p2
-  obtain ⟨l2, w2, s2⟩ := p2
-  generalize writeLimit c.quirks c.localMaxStreamsUni r3 = p3
-  obtain ⟨l3, w3, s3⟩ := p3
-  simp only [] at hspec ⊢
-  rcases hspec with ⟨rfl, h2, _⟩ | ⟨v, rfl, h2, _, h4, rfl⟩
-  · refine ⟨?_, .inl ⟨?_, ?_⟩⟩
-    · cases s1 <;> cases s2 <;> cases s3 <;> simp
-    · cases s1 <;> cases s2 <;> cases s3 <;> cases w2 <;> cases w3 <;> simp
-    · cases s1 <;> cases s2 <;> cases s3 <;> simp [h2]
-  · refine ⟨?_, .inr ⟨v, ?_, ?_, h4⟩⟩
-    · cases s2 <;> cases s3 <;> simp
-    · intro w; cases s2 <;> cases s3 <;> cases w2 <;> cases w3 <;> simp <;> exact eq_comm
-    · cases s2 <;> cases s3 <;> simp [h2]
+/-- the `Limit` object of a kind and the frame that advertises it -/
+def limOf (c : Conn) : LimitKind → Limit
+  | .data => c.localMaxData
+  | .streamsBidi => c.localMaxStreamsBidi
+  | .streamsUni => c.localMaxStreamsUni
 
-/-- every operation: the enforced connection limit either stays, or a MAX_DATA
-    frame with exactly the new (larger) value is written by the same operation;
-    and a MAX_DATA frame is only written with the value that is then enforced -/
-theorem step_maxData (c : Conn) (hq : c.quirks.raiseBeforeWrite = false) (op : Op) :
-    (step c op).1.quirks = c.quirks ∧
-    (((∀ v, WFrame.maxData v ∉ (step c op).2.frames) ∧
-        (step c op).1.localMaxData.value = c.localMaxData.value) ∨
-     (∃ v, (∀ w, WFrame.maxData w ∈ (step c op).2.frames ↔ w = v) ∧
-        (step c op).1.localMaxData.value = v ∧ c.localMaxData.value ≤ v)) := by
+def limFrame : LimitKind → Nat → WFrame
+  | .data, v => .maxData v
+  | .streamsBidi, v => .maxStreams false v
+  | .streamsUni, v => .maxStreams true v
+
+/-- what one operation does to an enforced connection-level limit of kind `k`:
+    it stays and no frame of that kind is written, or exactly one frame is
+    written and it carries the new (not smaller) enforced value -/
+def AdvStep (c c' : Conn) (out : Out) (k : LimitKind) : Prop :=
+  ((∀ v, limFrame k v ∉ out.frames) ∧ (limOf c' k).value = (limOf c k).value) ∨
+  (∃ v, (∀ w, limFrame k w ∈ out.frames ↔ w = v) ∧ (limOf c' k).value = v ∧ (limOf c k).value ≤ v)
+
+/-- `_write_connection_limits`, fixed code: frames and enforced values go together -/
+theorem writeConnLimits_adv (c : Conn) (hq : c.quirks.raiseBeforeWrite = false) (r1 r2 r3 : Bool) (k : LimitKind) :
+    (writeConnLimits c r1 r2 r3).1.quirks = c.quirks ∧
+    AdvStep c (writeConnLimits c r1 r2 r3).1 (writeConnLimits c r1 r2 r3).2 k := by
+  have hs1 := writeLimit_spec c.quirks hq c.localMaxData r1
+  have hs2 := writeLimit_spec c.quirks hq c.localMaxStreamsBidi r2
+  have hs3 := writeLimit_spec c.quirks hq c.localMaxStreamsUni r3
+  unfold AdvStep writeConnLimits
+  simp only []
+  generalize writeLimit c.quirks c.localMaxData r1 = p1 at hs1 ⊢
+  obtain ⟨l1, w1, s1⟩ := p1
+  generalize writeLimit c.quirks c.localMaxStreamsBidi r2 = p2 at hs2 ⊢
+  obtain ⟨l2, w2, s2⟩ := p2
+  generalize writeLimit c.quirks c.localMaxStreamsUni r3 = p3 at hs3 ⊢
+  obtain ⟨l3, w3, s3⟩ := p3
+  simp only [] at hs1 hs2 hs3 ⊢
+  cases k
+  · rcases hs1 with ⟨rfl, h2, _⟩ | ⟨v, rfl, h2, _, h4, rfl⟩
+    · refine ⟨?_, .inl ⟨?_, ?_⟩⟩
+      · cases s1 <;> cases s2 <;> cases s3 <;> simp
+      · cases s1 <;> cases s2 <;> cases s3 <;> cases w2 <;> cases w3 <;> simp [limFrame]
+      · cases s1 <;> cases s2 <;> cases s3 <;> simp [limOf, h2]
+    · refine ⟨?_, .inr ⟨v, ?_, ?_, by simpa [limOf] using h4⟩⟩
+      · cases s2 <;> cases s3 <;> simp
+      · intro w; cases s2 <;> cases s3 <;> cases w2 <;> cases w3 <;> simp [limFrame] <;> exact eq_comm
+      · cases s2 <;> cases s3 <;> simp [limOf, h2]
+  · cases s1
+    · rcases hs2 with ⟨rfl, h2, _⟩ | ⟨v, rfl, h2, _, h4, rfl⟩
+      · refine ⟨?_, .inl ⟨?_, ?_⟩⟩
+        · cases s2 <;> cases s3 <;> simp
+        · cases s2 <;> cases s3 <;> cases w1 <;> cases w3 <;> simp [limFrame]
+        · cases s2 <;> cases s3 <;> simp [limOf, h2]
+      · refine ⟨?_, .inr ⟨v, ?_, ?_, by simpa [limOf] using h4⟩⟩
+        · cases s3 <;> simp
+        · intro w; cases s3 <;> cases w1 <;> cases w3 <;> simp [limFrame] <;> exact eq_comm
+        · cases s3 <;> simp [limOf, h2]
+    · refine ⟨by simp, .inl ⟨?_, by simp [limOf]⟩⟩
+      cases w1 <;> simp [limFrame]
+  · cases s1
+    · cases s2
+      · rcases hs3 with ⟨rfl, h2, _⟩ | ⟨v, rfl, h2, _, h4, rfl⟩
+        · refine ⟨?_, .inl ⟨?_, ?_⟩⟩
+          · cases s3 <;> simp
+          · cases s3 <;> cases w1 <;> cases w2 <;> simp [limFrame]
+          · cases s3 <;> simp [limOf, h2]
+        · refine ⟨by simp, .inr ⟨v, ?_, by simp [limOf, h2], by simpa [limOf] using h4⟩⟩
+          intro w; cases w1 <;> cases w2 <;> simp [limFrame] <;> exact eq_comm
+      · refine ⟨by simp, .inl ⟨?_, by simp [limOf]⟩⟩
+        cases w1 <;> cases w2 <;> simp [limFrame]
+    · refine ⟨by simp, .inl ⟨?_, by simp [limOf]⟩⟩
+      cases w1 <;> simp [limFrame]
+
+theorem limFrame_streamId (k : LimitKind) (v : Nat) : frameStreamId (limFrame k v) = none := by
+  cases k <;> rfl
+
+theorem writeStreamLimits_no_limFrame (c : Conn) (sid : Nat) (room : Bool) (k : LimitKind) (v : Nat) :
+    limFrame k v ∉ (writeStreamLimits c sid room).2.frames := by
+  intro h
+  unfold writeStreamLimits at h
+  simp only [] at h
+  repeat' split at h
+  all_goals (cases k <;> simp [Out.error, limFrame] at h)
+
+/-- every operation, every kind of connection-level limit -/
+theorem step_adv (c : Conn) (hq : c.quirks.raiseBeforeWrite = false) (op : Op) (k : LimitKind) :
+    (step c op).1.quirks = c.quirks ∧ AdvStep c (step c op).1 (step c op).2 k := by
   have key : ∀ (p : Conn × Out), lmdq p.1 = lmdq c → p.2.frames = [] →
-      p.1.quirks = c.quirks ∧ (((∀ v, WFrame.maxData v ∉ p.2.frames) ∧ p.1.localMaxData.value = c.localMaxData.value) ∨
-        (∃ v, (∀ w, WFrame.maxData w ∈ p.2.frames ↔ w = v) ∧ p.1.localMaxData.value = v ∧ c.localMaxData.value ≤ v)) := by
+      p.1.quirks = c.quirks ∧ AdvStep c p.1 p.2 k := by
     intro p h1 h2
     simp only [lmdq, Prod.mk.injEq] at h1
-    exact ⟨h1.2, .inl ⟨by rw [h2]; simp, h1.1⟩⟩
+    refine ⟨h1.2.2.2, .inl ⟨by rw [h2]; simp, ?_⟩⟩
+    cases k
+    · exact h1.1
+    · exact h1.2.1
+    · exact h1.2.2.1
+  have key2 : ∀ (p : Conn × Out), lmdq p.1 = lmdq c → (∀ v, limFrame k v ∉ p.2.frames) →
+      p.1.quirks = c.quirks ∧ AdvStep c p.1 p.2 k := by
+    intro p h1 h2
+    simp only [lmdq, Prod.mk.injEq] at h1
+    refine ⟨h1.2.2.2, .inl ⟨h2, ?_⟩⟩
+    cases k
+    · exact h1.1
+    · exact h1.2.1
+    · exact h1.2.2.1
   cases op <;> simp only [step]
   · exact key _ (sendStreamData_lmdq ..) (sendStreamData_frames ..)
   · exact key _ (resetStream_lmdq ..) (resetStream_frames ..)
@@ -223,37 +287,72 @@ theorem step_maxData (c : Conn) (hq : c.quirks.raiseBeforeWrite = false) (op : O
   · exact key _ (rxStream_lmdq ..) (rxStream_frames ..)
   · exact key _ (rxResetStream_lmdq ..) (rxResetStream_frames ..)
   · rename_i sid a b fs
-    have h1 := serve_lmdq c sid a b fs
-    simp only [lmdq, Prod.mk.injEq] at h1
-    refine ⟨h1.2, .inl ⟨?_, h1.1⟩⟩
+    refine key2 _ (serve_lmdq c sid a b fs) ?_
     intro v hv
     have := (serve_frames hv).1
-    simp [frameStreamId] at this
-  · exact writeConnLimits_maxData c hq _ _ _
+    rw [limFrame_streamId] at this
+    simp at this
+  · exact writeConnLimits_adv c hq _ _ _ k
   · rename_i sid room
-    have h1 := writeStreamLimits_lmdq c sid room
-    simp only [lmdq, Prod.mk.injEq] at h1
-    exact ⟨h1.2, .inl ⟨fun v => writeStreamLimits_no_maxData c sid room v, h1.1⟩⟩
+    exact key2 _ (writeStreamLimits_lmdq c sid room) (fun v => writeStreamLimits_no_limFrame c sid room k v)
   · exact key _ (dataDelivery_lmdq ..) (dataDelivery_frames ..)
   · exact key _ (resetDelivery_lmdq ..) (resetDelivery_frames ..)
   · exact key _ (stopDelivery_lmdq ..) (stopDelivery_frames ..)
   · exact key (_, {}) (connLimitDelivery_lmdq ..) rfl
   · exact key (_, {}) (maxStreamDataDelivery_lmdq ..) rfl
 
-/-- the MAX_DATA values written by a sequence of outputs -/
-def advertised (outs : List Out) : List Nat :=
-  outs.flatMap fun o => o.frames.filterMap fun f => match f with | .maxData v => some v | _ => none
+/-- the values of kind `k` written by a sequence of outputs -/
+def advertisedK (k : LimitKind) (outs : List Out) : List Nat :=
+  outs.flatMap fun o => o.frames.filterMap fun f =>
+    match k, f with
+    | .data, .maxData v => some v
+    | .streamsBidi, .maxStreams false v => some v
+    | .streamsUni, .maxStreams true v => some v
+    | _, _ => none
 
-theorem mem_advertised_cons (o : Out) (outs : List Out) (v : Nat) :
-    v ∈ advertised (o :: outs) ↔ (WFrame.maxData v ∈ o.frames ∨ v ∈ advertised outs) := by
-  unfold advertised
+theorem mem_advertisedK_cons (k : LimitKind) (o : Out) (outs : List Out) (v : Nat) :
+    v ∈ advertisedK k (o :: outs) ↔ (limFrame k v ∈ o.frames ∨ v ∈ advertisedK k outs) := by
+  unfold advertisedK
   simp only [List.flatMap_cons, List.mem_append, List.mem_filterMap]
   constructor
   · rintro (⟨f, hf, hv⟩ | h)
-    · left; cases f <;> simp at hv; subst hv; exact hf
+    · left
+      cases k <;> cases f <;> (try (simp at hv; done))
+      all_goals first
+        | (simp at hv; subst hv; exact hf)
+        | (subst hv; exact hf)
+        | (rename_i u w; cases u <;> simp at hv; subst hv; exact hf)
     · exact .inr h
   · rintro (h | h)
-    · exact .inl ⟨_, h, rfl⟩
+    · exact .inl ⟨_, h, by cases k <;> rfl⟩
     · exact .inr h
+
+/-- run level: the enforced value of kind `k` is the largest of the initial
+    value and the values advertised so far -/
+theorem run_adv (c : Conn) (hq : c.quirks.raiseBeforeWrite = false) (k : LimitKind) (ops : List Op) :
+    (∀ v ∈ advertisedK k (run c ops).2, v ≤ (limOf (run c ops).1 k).value) ∧
+    (limOf c k).value ≤ (limOf (run c ops).1 k).value ∧
+    ((limOf (run c ops).1 k).value = (limOf c k).value ∨
+     (limOf (run c ops).1 k).value ∈ advertisedK k (run c ops).2) := by
+  induction ops generalizing c with
+  | nil => simp [run, advertisedK]
+  | cons op ops ih =>
+    obtain ⟨hq', hstep⟩ := step_adv c hq op k
+    obtain ⟨i1, i2, i3⟩ := ih (step c op).1 (by rw [hq']; exact hq)
+    simp only [run]
+    refine ⟨?_, ?_, ?_⟩
+    · intro v hv
+      rcases (mem_advertisedK_cons _ _ _ _).mp hv with hv | hv
+      · rcases hstep with ⟨hno, _⟩ | ⟨w, hw, hval, _⟩
+        · exact absurd hv (hno v)
+        · have := (hw v).mp hv; subst this; rw [← hval]; exact i2
+      · exact i1 v hv
+    · rcases hstep with ⟨_, hval⟩ | ⟨w, _, hval, hle⟩ <;> omega
+    · rcases i3 with i3 | i3
+      · rcases hstep with ⟨_, hval⟩ | ⟨w, hw, hval, _⟩
+        · left; rw [i3, hval]
+        · right; rw [i3, hval]
+          exact (mem_advertisedK_cons _ _ _ _).mpr (.inl ((hw w).mpr rfl))
+      · right; exact (mem_advertisedK_cons _ _ _ _).mpr (.inr i3)
 
 end AQ.Flow
